@@ -195,7 +195,7 @@ fn search(seed: u64, n: u64) -> String {
                     // signed margin of the configuration: | dist(c, line) - r |
                     let (dx, dy) = (v.x - u.x, v.y - u.y);
                     let d = (((c.c.x - u.x) * dy - (c.c.y - u.y) * dx) / hyp(dx, dy)).abs();
-                    if d > r + 1e-6 && kind != 0 || d < r - 1e-6 && kind != 2 {
+                    if d > r + 1e-8 && kind != 0 || d < r - 1e-8 && kind != 2 {
                         return format!("FAIL cl-kind-d-r={:e}-got={} {}", d - r, kind, line);
                     }
                 }
@@ -211,8 +211,19 @@ fn search(seed: u64, n: u64) -> String {
             _ => {
                 let ra = if lattice { g.int(1, 20) as f64 } else { g.range(0.05 * m, m) };
                 let a = Circle::new(Point::new(coord(&mut g), coord(&mut g)), ra);
-                let rb = if lattice { g.int(1, 20) as f64 } else { g.range(0.05 * m, m) };
-                let bc = Circle::new(Point::new(coord(&mut g), coord(&mut g)), rb);
+                let near = !lattice && it % 5 == 0;
+                let bc = if near {
+                    // radius ratio up to 1e3:1, 20 EPS .. 1e4 EPS on either side of the inner / outer tangency
+                    let rb = ra / g.range(1.0, 1000.0);
+                    let delta = [2e-8, 5e-8, 1e-7, 1e-6, 1e-5][(g.0.next() % 5) as usize] * if g.0.next() % 2 == 0 { 1.0 } else { -1.0 };
+                    let d = if g.0.next() % 2 == 0 { ra + rb + delta } else { (ra - rb + delta).max(0.0) };
+                    let ang = g.range(0.0, std::f64::consts::TAU);
+                    Circle::new(Point::new(a.c.x + d * ang.cos(), a.c.y + d * ang.sin()), rb)
+                } else {
+                    let rb = if lattice { g.int(1, 20) as f64 } else { g.range(0.05 * m, m) };
+                    Circle::new(Point::new(coord(&mut g), coord(&mut g)), rb)
+                };
+                let rb = bc.r;
                 let line = format!("cc {} {} {} {}", pt(&a.c), b(a.r), pt(&bc.c), b(bc.r));
                 let res = intersect_cc(&a, &bc);
                 let kind = match res {
@@ -234,9 +245,9 @@ fn search(seed: u64, n: u64) -> String {
                 } else {
                     let d = hyp(a.c.x - bc.c.x, a.c.y - bc.c.y);
                     let (s, df) = (ra + rb, (ra - rb).abs());
-                    let want = if d > s + 1e-6 || d < df - 1e-6 {
+                    let want = if d > s + 1e-8 || d < df - 1e-8 {
                         Some(0)
-                    } else if d < s - 1e-6 && d > df + 1e-6 {
+                    } else if d < s - 1e-8 && d > df + 1e-8 {
                         Some(2)
                     } else {
                         None
